@@ -8,9 +8,12 @@ VERIF = os.path.dirname(os.path.dirname(os.path.abspath(__file__)))
 EXTRA = {"C13-5": ["C14"], "C03-1": ["C04"], "C05-2": ["C13"], "C02-1": ["C04"], "C04-1": ["C02", "C18"], "C18-2": ["C04"]}
 
 only = None
+seed = None  # --seed=N: robustness sweep at another VERIF_SEED, recorded under "detected_by_seed"
 for a in sys.argv[1:]:
     if a.startswith("--only"):
         only = set(a.split("=", 1)[1].split(","))
+    if a.startswith("--seed"):
+        seed = a.split("=", 1)[1]
 
 rows = []
 for d in sorted(glob.glob(os.path.join(VERIF, "seeded", "C*-*"))):
@@ -18,11 +21,20 @@ for d in sorted(glob.glob(os.path.join(VERIF, "seeded", "C*-*"))):
     meta = json.load(open(os.path.join(d, "meta.json")))
     if only is None or name in only:
         checks = [meta["property"]] + EXTRA.get(name, [])
-        r = subprocess.run([os.path.join(VERIF, "tools", "seeded_eval.py"), d] + checks, capture_output=True, text=True)
+        env = dict(os.environ)
+        if seed is not None:
+            env["VERIF_SEED"] = seed
+        r = subprocess.run([os.path.join(VERIF, "tools", "seeded_eval.py"), d] + checks, capture_output=True, text=True, env=env)
         try:
             res = json.loads(r.stdout)
         except Exception:
             print(name, "eval failed", r.stdout[-300:], r.stderr[-300:])
+            continue
+        if seed is not None:
+            got = {c: bool(x.get("detected")) for c, x in res.get("checks", {}).items()}
+            meta.setdefault("detected_by_seed", {})[seed] = got
+            json.dump(meta, open(os.path.join(d, "meta.json"), "w"), indent=1)
+            print(name, "seed", seed, got, flush=True)
             continue
         meta["patch_applies"] = res.get("patch_applies")
         meta["demo_fails_with_patch"] = res.get("demo_fails_with_patch")
